@@ -232,8 +232,7 @@ def coq_failing(imports: str, fn: str, cases: list[tuple[t.Any, t.Any]], *, tag:
     (implementation) output.  Returns (failing indices, log)."""
     cdir = COQ / "Cases"
     cdir.mkdir(exist_ok=True)
-    for old in cdir.glob(f"{tag}_*"):
-        old.unlink()
+    tag = f"{tag}_p{os.getpid()}"      # concurrent runs of the same check must not share case files
     files = []
     for k in range(0, len(cases), shard):
         chunk = cases[k:k + shard]
